@@ -178,7 +178,33 @@ def _wrap(arg, how, sf=None, x=None):
         return collections.Counter(arg)
     if how == "missing":
         return _MissingDict(arg)
+    if how == "strsub_keys":       # a plain dict whose keys are instances of a str subclass
+        return {(_StrSub(k) if isinstance(k, str) else k): v for k, v in arg.items()}
+    if how == "intsub_vals":       # ... whose values are instances of an int subclass
+        return {k: (_IntSub(v) if type(v) is int else v) for k, v in arg.items()}
+    # not dicts at all (the documented argument is a str or a dict): a read-only view of the caller's
+    # dict, a Mapping that is no dict, an iterator of pairs that can be consumed once
+    if how == "mappingproxy":
+        import types
+        return types.MappingProxyType(arg)
+    if how == "userdict":
+        return collections.UserDict(arg)
+    if how == "pairs_iter":
+        return iter(list(arg.items()))
+    if how == "pairs_list":
+        return list(arg.items())
     return arg
+
+
+class _StrSub(str):
+    pass
+
+
+class _IntSub(int):
+    pass
+
+
+NONDICT_WRAPS = ("mappingproxy", "userdict", "pairs_iter", "pairs_list")
 
 
 _IDX = ("[C]", "[Ring1]", "[Ring2]", "[Branch1]", "[=Branch1]", "[#Branch1]", "[Branch2]", "[=Branch2]",
@@ -396,13 +422,16 @@ def _execute_one(sf, op, pos, H, passive):
         if k == "set_preset":
             if op["name"] is None:
                 o = outcome(sf.set_semantic_constraints)
+            elif op.get("strsub"):
+                o = outcome(sf.set_semantic_constraints, _StrSub(op["name"]))
             else:
                 o = outcome(sf.set_semantic_constraints, op["name"])
             H[("ret", idx)] = o[3]
             rec["r"] = o[:3]
         elif k == "set_table":
-            arg = _wrap(parse_arg(op["lit"]), op.get("wrap"), sf, op.get("x"))
-            H[idx] = arg
+            base = parse_arg(op["lit"])
+            arg = _wrap(base, op.get("wrap"), sf, op.get("x"))
+            H[idx] = base if op.get("wrap") == "mappingproxy" else arg     # what the caller can still mutate
             o = outcome(sf.set_semantic_constraints, arg)
             H[("ret", idx)] = o[3]         # whatever the call returns is an object the caller may keep
             rec["r"] = o[:3]
@@ -613,8 +642,15 @@ class Verifier:
             if k in ("set_preset", "set_table"):
                 fault = k == "set_table" and "why" in op
                 # whether an update is accepted must not depend on what happened before: ask a fresh interpreter
-                fresh = ask(("preset", op["name"] or "default") if k == "set_preset" else ("lit", op["lit"]), ("get",))
-                probe("checked:set_acceptance_eq_oracle")
+                nondict = k == "set_table" and op.get("wrap") in NONDICT_WRAPS
+                if nondict:
+                    # the oracle interpreter is given plain literals; whether a Mapping that is no dict
+                    # is accepted is not for C12 to say - only what happens afterwards is
+                    fresh = r
+                    probe("fault_caller_passes_non_dict:" + op["wrap"] + (":accepted" if r[0] == "ok" else ":rejected"))
+                else:
+                    fresh = ask(("preset", op["name"] or "default") if k == "set_preset" else ("lit", op["lit"]), ("get",))
+                    probe("checked:set_acceptance_eq_oracle")
                 if (r[0] == "ok") != (fresh[0] == "ok"):
                     out.append(Violation("set_acceptance_eq_oracle", idx, {
                         "arg": (op.get("lit") or repr(op.get("name")))[:300], "here": r[:2], "fresh_interpreter": fresh[:2]}))
